@@ -82,7 +82,7 @@ def players(report, db, S):
             report.violation(R, 'apply:missing:%s' % ci.name, ci.path,
                              ci.node, ci.qualname, 'action has no apply()')
             continue
-        me, pl = sy(fi.params[0]), sy(fi.params[1])
+        me, pl = sy(fi.all_params[0]), sy(fi.all_params[1])
         tbl = at(pl, 'players_by_uuid')
         uuid = at(me, 'uuid')
         paths = S.run(fi)
@@ -214,7 +214,7 @@ def players(report, db, S):
                              'field on the player only when the lookup '
                              'found one (%s)' % (ci.name, why))
     ap = db.own_method(pk, 'apply')
-    me, pl = sy(ap.params[0]), sy(ap.params[1])
+    me, pl = sy(ap.all_params[0]), sy(ap.all_params[1])
     okk = False
     paths = S.run(ap)
     for p in paths:
@@ -249,7 +249,7 @@ def position(report, db, S):
     fi = db.own_method(ci, 'apply')
     if fi is None:
         raise AnalysisError('PlayerPositionAndLookPacket.apply vanished')
-    me, tg = sy(fi.params[0]), sy(fi.params[1])
+    me, tg = sy(fi.all_params[0]), sy(fi.all_params[1])
     bits = {'x': 1, 'y': 2, 'z': 4, 'yaw': 8, 'pitch': 16}
     paths = S.run(fi)
     if len(paths) < 32:
@@ -346,7 +346,7 @@ def map_patch(report, db, S):
     fi = db.own_method(ci, 'apply_to_map')
     if fi is None:
         raise AnalysisError('MapPacket.apply_to_map vanished')
-    me, mp = sy(fi.params[0]), sy(fi.params[1])
+    me, mp = sy(fi.all_params[0]), sy(fi.all_params[1])
     pix = at(me, 'pixels')
     paths = S.run(fi)
     prob = []
@@ -424,7 +424,7 @@ def map_patch(report, db, S):
     fs = db.own_method(ci, 'apply_to_map_set')
     if fs is None:
         raise AnalysisError('MapPacket.apply_to_map_set vanished')
-    me, ms = sy(fs.params[0]), sy(fs.params[1])
+    me, ms = sy(fs.all_params[0]), sy(fs.all_params[1])
     tbl = at(ms, 'maps_by_id')
     mid = at(me, 'map_id')
     look = ('call', ('attr', tbl, 'get'), (mid,), (), None)
@@ -551,14 +551,14 @@ def aliases(report, db, S=None):
                              fi.qualname, 'the property lacks %s'
                              % sorted(missing))
             continue
-        name = sy(fi.params[0])
+        name = sy(fi.all_params[0])
         if fname == 'partial_attribute_alias':
             target = ('op', 'getattr', (me, name))
-            attr = sy(fi.params[1])
+            attr = sy(fi.all_params[1])
             where = 'self.<%s>.<%s>' % tuple(fi.params[:2])
         else:
             target, attr = me, name
-            where = 'self.<%s>' % fi.params[0]
+            where = 'self.<%s>' % fi.all_params[0]
         prob = []
 
         def stores(p):
@@ -577,11 +577,11 @@ def aliases(report, db, S=None):
             v = p.value
             want = ('op', 'getattr', (target, attr))
             if fname == 'attribute_transform':
-                f = sy(fi.params[1])
+                f = sy(fi.all_params[1])
                 if not (v[0] == 'call' and struct(v[1]) == f and
                         [struct(x) for x in v[2]] == [want] and not v[3]):
                     prob.append('the getter returns %s; expected %s(%s)'
-                                % (show(v), fi.params[1], where))
+                                % (show(v), fi.all_params[1], where))
             elif struct(v) != want:
                 prob.append('the getter reads %s instead of %s'
                             % (show(v), where))
@@ -598,11 +598,11 @@ def aliases(report, db, S=None):
                             % (addr(e), where))
             v = e.value
             if fname == 'attribute_transform':
-                f = sy(fi.params[2])
+                f = sy(fi.all_params[2])
                 if not (v[0] == 'call' and struct(v[1]) == f and
                         [struct(x) for x in v[2]] == [val] and not v[3]):
                     prob.append('the setter stores %s; expected %s(value)'
-                                % (show(v), fi.params[2]))
+                                % (show(v), fi.all_params[2]))
             elif struct(v) != val:
                 prob.append('an alias must not transform the value (stores '
                             '%s)' % show(v))
@@ -681,7 +681,7 @@ def records(report, db, S):
     ne = db.own_method(ci, '__ne__')
     if None in (eq, hs):
         raise AnalysisError('MutableRecord.__eq__/__hash__ vanished')
-    me, ot = sy(eq.params[0]), sy(eq.params[1])
+    me, ot = sy(eq.all_params[0]), sy(eq.all_params[1])
     als_fi = db.own_method(ci, '_all_slots')
 
     def is_slots(t):
@@ -719,7 +719,7 @@ def records(report, db, S):
                 or struct(v) in same_type):
             type_ok = False
     ph = S.run(hs)
-    hme = sy(hs.params[0])
+    hme = sy(hs.all_params[0])
     hits = iterables(ph)
     rp = [p for p in ph if p.returns]
     htype = bool(rp) and all(
@@ -763,7 +763,7 @@ def records(report, db, S):
                             '' if hget else ', not the slot values'))
     if ne is not None:
         pn = S.run(ne)
-        nme, no = sy(ne.params[0]), sy(ne.params[1])
+        nme, no = sy(ne.all_params[0]), sy(ne.all_params[1])
         neg = all(struct(p.value) == ('op', 'not', (('op', '==', (nme, no)),
                                                     )) for p in pn)
         if neg:
@@ -777,7 +777,7 @@ def records(report, db, S):
                          ci.qualname, '_all_slots does not collect the '
                          '__slots__ of every class in the MRO')
     if als is not None:
-        cls_name = als.params[0]
+        cls_name = als.all_params[0]
         stores_ = set()
         for n in ast.walk(als.node):
             if isinstance(n, ast.Call) and ast.unparse(n.func) == 'setattr' \
@@ -821,7 +821,7 @@ def records(report, db, S):
                              % name)
             continue
         n += 1
-        me, o = sy(fi.params[0]), sy(fi.params[1])
+        me, o = sy(fi.all_params[0]), sy(fi.all_params[1])
         built = [(p, p.value) for p in S.run(fi) if p.returns and
                  p.value != ('builtin', 'NotImplemented')]
         if not built or not all(v[0] == 'call' and struct(v[1]) == (
@@ -853,7 +853,7 @@ def records(report, db, S):
     neg = db.own_method(vec, '__neg__')
     okn = False
     if neg is not None:
-        me = sy(neg.params[0])
+        me = sy(neg.all_params[0])
         okn = all(p.returns and p.value[0] == 'call' and struct(
             p.value[1]) == ('op', 'type', (me,)) and [struct(a) for a in
                                                       p.value[2]] == [
@@ -898,10 +898,46 @@ def alias_sites(report, db):
                 if which is None:
                     continue
                 n += 1
+                if any(isinstance(a, ast.Starred) for a in v.args):
+                    # *names where names folds to a tuple of strings (the
+                    # __slots__ of a record class): those strings
+                    pos = []
+                    for a in v.args:
+                        if not isinstance(a, ast.Starred):
+                            pos.append(a)
+                            continue
+                        try:
+                            val = Folder(db).eval(a.value, Env(ci.module,
+                                                               cls=ci))
+                        except (AnalysisError, FoldRaise):
+                            val = None
+                        if not (isinstance(val, (tuple, list)) and all(
+                                isinstance(x, str) for x in val)):
+                            pos = None
+                            break
+                        pos.extend(ast.copy_location(ast.Constant(value=x),
+                                                     a) for x in val)
+                    if pos is not None:
+                        v = ast.copy_location(ast.Call(
+                            func=v.func, args=pos, keywords=v.keywords), v)
                 if any(isinstance(a, ast.Starred) for a in v.args) or any(
                         k.arg is None for k in v.keywords):
                     raise AnalysisError('alias factory called with star '
                                         'arguments', v, rel(ci.path))
+
+                # arguments given by parameter name take their positions
+                fpar = fac[which].params
+                if v.keywords and len(v.args) < len(fpar):
+                    kws = {k.arg: k.value for k in v.keywords}
+                    pos = list(v.args)
+                    for pn in fpar[len(pos):]:
+                        if pn not in kws:
+                            break
+                        pos.append(kws.pop(pn))
+                    v = ast.copy_location(ast.Call(
+                        func=v.func, args=pos, keywords=[
+                            ast.keyword(arg=k, value=x)
+                            for k, x in kws.items()]), v)
 
                 def is_name(a):
                     return isinstance(a, ast.Constant) and isinstance(
